@@ -32,10 +32,10 @@ STALL = """({
                     if old(self).input.cursor < old(self).input.tokens.len() { Some(old(self).input.tokens@[old(self).input.cursor as int].range) } else { None })
         })"""
 # what every look-ahead does to the termination measure
-MU_PEEK = """mu(*final(self)) <= mu(*old(self)), at_eof(*final(self)) == at_eof(*old(self)),
+MU_PEEK = """0 <= mu(*final(self)) <= mu(*old(self)), at_eof(*final(self)) == at_eof(*old(self)), stay(*old(self), *final(self)),
             (old(self).fuel > 0 && !at_eof(*old(self))) ==> mu(*final(self)) < mu(*old(self)),"""
-MU_SAME = "mu(*final(self)) == mu(*old(self)), at_eof(*final(self)) == at_eof(*old(self)),"
-MU_SAME_P = "mu(*final(p)) == mu(*old(p)), at_eof(*final(p)) == at_eof(*old(p)),"
+MU_SAME = "0 <= mu(*final(self)) == mu(*old(self)), at_eof(*final(self)) == at_eof(*old(self)), stay(*old(self), *final(self)),"
+MU_SAME_P = "0 <= mu(*final(p)) == mu(*old(p)), at_eof(*final(p)) == at_eof(*old(p)), stay(*old(p), *final(p)),"
 G_ENTRY = ("@entry", "", "let ghost p0 = *self;")
 G_SKIP = "lemma_skip_trivia_bounds(self.input.tokens@, self.input.cursor as int);"
 
@@ -72,7 +72,8 @@ KEEP_P = KEEP.replace("self", "p")
 WF_PUSH = ("proof { lemma_count_adv_push(old(self).events@, self.events@.last()); assert forall|i: int| 0 <= i < self.events@.len() implies "
            "#[trigger] fp_ok(self.events@, i) by { if i < old(self).events@.len() { assert(fp_ok(old(self).events@, i)); } } }")
 
-PCORE_FNS = [
+REVEAL = ("@entry", "", "proof { reveal(Parser::wf); reveal(at_eof); reveal(mu); }")
+PCORE_FNS_RAW = [
     Fn(file=P, name="new", container="MarkerOpened", ret="r", contract="ensures r.index == pos,"),
     peek_like("peek", False),
     peek_like("nth", True),
@@ -143,8 +144,8 @@ PCORE_FNS = [
             {EV_PUSH.format(e="Event::Advance")}, events_extend(old(self).events@, final(self).events@),
             ({{ let c = skip_trivia({OLDC});
                final(self).input.cursor == if c < old(self).input.tokens.len() {{ c + 1 }} else {{ c }} }}),
-            mu(*final(self)) <= mu(*old(self)), !at_eof(*old(self)) ==> mu(*final(self)) < mu(*old(self)),
-            at_eof(*old(self)) ==> at_eof(*final(self)),""",
+            0 <= mu(*final(self)) <= mu(*old(self)), !at_eof(*old(self)) ==> mu(*final(self)) < mu(*old(self)),
+            at_eof(*old(self)) ==> at_eof(*final(self)), stay(*old(self), *final(self)),""",
        ghost=[G_ENTRY,
               ("@entry", "", f"proof {{ {G_SKIP} let c = skip_trivia(self.input.tokens@, self.input.cursor as int); if c < self.input.tokens.len() {{ lemma_nontrivia_step(self.input.tokens@, c); }} }}"),
               ("self.events.push(Event::Advance)", "line-after", WF_PUSH + "\nproof { lemma_mu_advance(p0, *self); }")]),
@@ -153,10 +154,10 @@ PCORE_FNS = [
         ensures final(self).wf(), {FRAME}, events_extend(old(self).events@, final(self).events@),
             !r ==> final(self).events == old(self).events,
             r ==> final(self).events@ == old(self).events@.push(Event::Advance) && final(self).fuel == 256,
-            mu(*final(self)) <= mu(*old(self)),
+            0 <= mu(*final(self)) <= mu(*old(self)),
             (r && kind != TokenKind::Eof) ==> mu(*final(self)) < mu(*old(self)),
             (old(self).fuel > 0 && !at_eof(*old(self))) ==> mu(*final(self)) < mu(*old(self)),
-            at_eof(*old(self)) ==> at_eof(*final(self)),"""),
+            at_eof(*old(self)) ==> at_eof(*final(self)), stay(*old(self), *final(self)),"""),
     Fn(file=P, name="error", container="Parser", as_method_of=PI,
        rewrites=[("msg.to_string()", "rt_string(msg)")],
        contract=f"""requires old(self).wf(),
@@ -175,8 +176,8 @@ PCORE_FNS = [
             final(self).events@[old(self).events@.len() as int + 1] is Error,
             final(self).events@[old(self).events@.len() as int + 2] is Advance,
             final(self).events@[old(self).events@.len() as int + 3] is Close,
-            mu(*final(self)) <= mu(*old(self)), !at_eof(*old(self)) ==> mu(*final(self)) < mu(*old(self)),
-            at_eof(*old(self)) ==> at_eof(*final(self)),""",
+            0 <= mu(*final(self)) <= mu(*old(self)), !at_eof(*old(self)) ==> mu(*final(self)) < mu(*old(self)),
+            at_eof(*old(self)) ==> at_eof(*final(self)), stay(*old(self), *final(self)),""",
        ghost=[("let m = self.open()", "line-after", "let ghost e1 = self.events@;"),
               ("self.events.push(Event::Error(", "line-after", "proof { lemma_push_nonadv_wf(e1, self.events@.last()); assert(self.events@ =~= e1.push(self.events@.last())); }")]),
     Fn(file=P, name="should_consume_on_expect_failure", ret="r"),
@@ -187,11 +188,17 @@ PCORE_FNS = [
         ensures final(self).wf(), {FRAME}, events_extend(old(self).events@, final(self).events@),
             final(self).events@.len() > old(self).events@.len(),
             forall|i: int| 0 <= i < old(self).events@.len() ==> final(self).events@[i] == old(self).events@[i],
-            mu(*final(self)) <= mu(*old(self)),
+            0 <= mu(*final(self)) <= mu(*old(self)),
             (old(self).fuel > 0 && !at_eof(*old(self))) ==> mu(*final(self)) < mu(*old(self)),
-            at_eof(*old(self)) ==> at_eof(*final(self)),""",
+            at_eof(*old(self)) ==> at_eof(*final(self)), stay(*old(self), *final(self)),""",
        ghost=[("self.events.push(Event::Error(", "line-after", "proof { lemma_push_nonadv_wf(old(self).events@, self.events@.last()); }")]),
 ]
+
+PCORE_FNS = []
+for _f in PCORE_FNS_RAW:
+    if "wf()" in _f.contract:
+        _f.ghost = [REVEAL] + list(_f.ghost)
+    PCORE_FNS.append(_f)
 
 LEMMAS = Raw(text="""
 pub proof fn lemma_nth_eof(ts: Seq<Token>, c: int, n: int)
